@@ -10,13 +10,13 @@ theorem Mono.refl (w : World) : Mono w w := fun _ => Nat.le_refl _
 theorem Mono.trans {a b c : World} (h1 : Mono a b) (h2 : Mono b c) : Mono a c := fun g => Nat.le_trans (h1 g) (h2 g)
 theorem Mono.of_fibers {w w' : World} (h : w'.fibers = w.fibers) : Mono w w' := fun g => by rw [h]; exact Nat.le_refl _
 
-theorem schedule_Mono (cfg : Cfg) (w : World) (f : Nat) (v : Val) (e : Bool) (rg nb : Nat) (src : Src) :
-    Mono w (schedule cfg w f v e rg nb src) := fun g => schedule_mono cfg w f v e rg nb src g
+theorem schedule_Mono (cfg : Cfg) (w : World) (f : Nat) (v : Val) (e : Bool) (rg nb : Nat) (src : Src) (re : Nat) :
+    Mono w (schedule cfg w f v e rg nb src re) := fun g => schedule_mono cfg w f v e rg nb src re g
 
-theorem schedule_Mono' (cfg : Cfg) (w w1 : World) (hf : w1.fibers = w.fibers) (f : Nat) (v : Val) (e : Bool) (rg nb : Nat) (src : Src) :
-    Mono w (schedule cfg w1 f v e rg nb src) := by
+theorem schedule_Mono' (cfg : Cfg) (w w1 : World) (hf : w1.fibers = w.fibers) (f : Nat) (v : Val) (e : Bool) (rg nb : Nat) (src : Src) (re : Nat) :
+    Mono w (schedule cfg w1 f v e rg nb src re) := by
   intro g
-  have := schedule_mono cfg w1 f v e rg nb src g
+  have := schedule_mono cfg w1 f v e rg nb src re g
   rw [hf] at this
   exact this
 
@@ -49,7 +49,7 @@ theorem chanPop_Mono (cfg : Cfg) (w : World) (f c : Nat) (ch : Bool) : Mono w (c
 theorem closeOne_Mono (cfg : Cfg) (c : Nat) (w : World) (e : Pending) : Mono w (closeOne cfg c w e) := by
   unfold closeOne
   split
-  · exact schedule_Mono _ _ _ _ _ _ _ _
+  · exact schedule_Mono _ _ _ _ _ _ _ _ _
   · exact Mono.refl _
 
 theorem closeFold_Mono (cfg : Cfg) (c : Nat) (l : List Pending) (w : World) : Mono w (l.foldl (closeOne cfg c) w) := by
@@ -60,9 +60,9 @@ theorem closeFold_Mono (cfg : Cfg) (c : Nat) (l : List Pending) (w : World) : Mo
 theorem fireTimer_Mono (cfg : Cfg) (w : World) (to : Timer) : Mono w (fireTimer cfg w to) := by
   unfold fireTimer
   cases to.kind with
-  | deadline b => simp only; split; exact schedule_Mono _ _ _ _ _ _ _ _; exact Mono.refl _
-  | timeout => simp only; split; exact schedule_Mono _ _ _ _ _ _ _ _; exact Mono.refl _
-  | sleep => simp only; split; exact schedule_Mono _ _ _ _ _ _ _ _; exact Mono.refl _
+  | deadline b => simp only; split; exact schedule_Mono _ _ _ _ _ _ _ _ _; exact Mono.refl _
+  | timeout => simp only; split; exact schedule_Mono _ _ _ _ _ _ _ _ _; exact Mono.refl _
+  | sleep => simp only; split; exact schedule_Mono _ _ _ _ _ _ _ _ _; exact Mono.refl _
 
 theorem timerPhase_Mono (cfg : Cfg) (fuel : Nat) (w : World) : Mono w (timerPhase cfg w fuel) := by
   induction fuel generalizing w with
@@ -93,38 +93,41 @@ theorem runTask_Mono (cfg : Cfg) (w : World) : Mono w (runTask cfg w) := by
   | nil => exact Mono.refl _
   | cons t q =>
     simp only
-    have h1 : Mono w { w with queue := q, fibers := set w.fibers t.fiber { w.fibers t.fiber with canceled := false } } := by
-      intro g
+    have hgen : ∀ fb' : Fiber, (w.fibers t.fiber).schedId ≤ fb'.schedId →
+        Mono w { w with queue := q, fibers := set w.fibers t.fiber fb' } := by
+      intro fb' hle g
       by_cases hg : g = t.fiber
-      · subst hg; simp
+      · subst hg; simpa using hle
       · simp [set_other _ _ _ _ hg]
+    have hle : (w.fibers t.fiber).schedId ≤
+        (if cfg.resumeBumps then (w.fibers t.fiber).schedId + 1 else (w.fibers t.fiber).schedId) := by split <;> omega
     split
-    · exact h1
+    · exact hgen _ (Nat.le_refl _)
     · split
-      · exact Mono.trans h1 (Mono.trans (asyncEnd_Mono _ _) (Mono.of_fibers rfl))
-      · exact Mono.trans h1 (Mono.of_fibers rfl)
+      · exact Mono.trans (hgen ({ (w.fibers t.fiber) with canceled := false, epoch := (w.fibers t.fiber).epoch + 1, schedId := (if cfg.resumeBumps then (w.fibers t.fiber).schedId + 1 else (w.fibers t.fiber).schedId) } : Fiber) hle) (Mono.trans (asyncEnd_Mono _ _) (Mono.of_fibers rfl))
+      · exact Mono.trans (hgen ({ (w.fibers t.fiber) with canceled := false, epoch := (w.fibers t.fiber).epoch + 1, schedId := (if cfg.resumeBumps then (w.fibers t.fiber).schedId + 1 else (w.fibers t.fiber).schedId) } : Fiber) hle) (Mono.of_fibers rfl)
 
 theorem step_Mono (cfg : Cfg) (w : World) (op : Op) : Mono w (step cfg w op) := by
   cases op with
-  | spawn f => exact schedule_Mono _ _ _ _ _ _ _ _
+  | spawn f => exact schedule_Mono _ _ _ _ _ _ _ _ _
   | give f c x ch => simp only [step]; split; exact Mono.refl _; exact chanPush_Mono _ _ _ _ _ _
   | take f c ch =>
     simp only [step]
     split
-    · split; exact Mono.refl _; exact schedule_Mono _ _ _ _ _ _ _ _
+    · split; exact Mono.refl _; exact schedule_Mono _ _ _ _ _ _ _ _ _
     · have hp := chanPop_Mono cfg w f c ch
       cases hr : chanPop cfg w f c ch with
       | mk w1 o =>
         rw [hr] at hp
         cases o with
         | none => exact hp
-        | some it => simp only; split; exact hp; exact Mono.trans hp (schedule_Mono _ _ _ _ _ _ _ _)
+        | some it => simp only; split; exact hp; exact Mono.trans hp (schedule_Mono _ _ _ _ _ _ _ _ _)
   | close c =>
     simp only [step, chanClose]
     split
     · exact Mono.refl _
     · exact fun g => closeFold_Mono cfg c _ { w with chans := set w.chans c { (w.chans c) with closed := true, rp := [], wp := [] } } g
-  | cancel f v => exact schedule_Mono _ _ _ _ _ _ _ _
+  | cancel f v => exact schedule_Mono _ _ _ _ _ _ _ _ _
   | sleep f d => exact Mono.of_fibers rfl
   | timeout f d => exact Mono.of_fibers rfl
   | deadline f b d => exact Mono.of_fibers rfl
@@ -143,7 +146,7 @@ theorem step_Mono (cfg : Cfg) (w : World) (op : Op) : Mono w (step cfg w op) := 
     · split
       · exact Mono.refl _
       · split
-        · exact Mono.trans (schedule_Mono _ _ _ _ _ _ _ _) (asyncEnd_Mono _ _)
+        · exact Mono.trans (schedule_Mono _ _ _ _ _ _ _ _ _) (asyncEnd_Mono _ _)
         · exact Mono.refl _
   | procWait f k => exact Mono.of_fibers rfl
   | procExit k st =>
@@ -151,8 +154,21 @@ theorem step_Mono (cfg : Cfg) (w : World) (op : Op) : Mono w (step cfg w op) := 
     split
     · exact Mono.refl _
     · split
-      · (apply schedule_Mono'; rfl)
+      · split
+        · split
+          · (apply schedule_Mono'; rfl)
+          · exact Mono.of_fibers rfl
+        · split
+          · (apply schedule_Mono'; rfl)
+          · exact Mono.of_fibers rfl
       · exact Mono.of_fibers rfl
+  | procFlag k x => exact Mono.of_fibers rfl
+  | childEnter f => exact setFlag_Mono w f _ rfl
+  | childLeave f =>
+    simp only [step]
+    split
+    · exact Mono.trans (setFlag_Mono w f { w.fibers f with depth := (w.fibers f).depth - 1 } rfl) (asyncEnd_Mono _ _)
+    · exact setFlag_Mono w f _ rfl
   | advance dt => exact Mono.of_fibers rfl
   | timers => exact timerPhase_Mono _ _ _
   | run => exact runTask_Mono _ _
